@@ -59,7 +59,9 @@ def generate(rng: random.Random, tier: str) -> dict:
     if target == "sgd":
         c["grafting"] = {"type": "sgd"}
         c["betas"][0] = 0.0
-        c["use_decoupled_weight_decay"] = False
+        # SGD has no preconditioner between the gradient and the momentum buffer: the decay term enters the buffer either way
+        # (added to the gradient, or added to the search direction before momentum), so both settings are torch.optim.SGD
+        c["use_decoupled_weight_decay"] = rng.random() < 0.5
         c["use_nesterov"] = rng.random() < 0.4 and c["momentum"] > 0
     elif target == "adagrad":
         c["grafting"] = {"type": "adagrad", "epsilon": geps}
@@ -193,7 +195,7 @@ def valid_trace(t: dict) -> bool:
     cfgs = [c] + [{**c, **gr.get("overrides", {})} for gr in t["groups"]]
     for cc in cfgs:
         if target in ("sgd", "adagrad", "rmsprop"):
-            if cc["betas"][0] != 0.0 or cc["use_decoupled_weight_decay"]:
+            if cc["betas"][0] != 0.0 or (cc["use_decoupled_weight_decay"] and target != "sgd"):
                 return False
             if target == "adagrad" and cc["momentum"] != 0.0:
                 return False
